@@ -23,6 +23,9 @@ func init() {
 			{"R34.1", "a WAL file is deleted only when no replay is needed (incl. interrupted replays)", ruleDeleteGuarded},
 			{"R2.1", "replayed TG is checkpointed before replay reports success", ruleReplayCheckpointed},
 			{"R4.3", "the WAL is truncated only behind a successful checkpoint", ruleTruncateBehindCheckpoint},
+			{"R7.5", "one flush takes the whole backlog that was queued when it started", ruleFlushDrainsBacklog},
+			{"R7.2", "a flush requester is answered only after a flush that ran after its request was taken", ruleReplyDiscipline},
+			{"R7.1", "the requester waits for a flush", ruleRequesterWaits},
 		},
 	})
 }
@@ -46,6 +49,9 @@ func init() {
 			{"R34.1", "a WAL file is deleted only when no replay is needed (incl. interrupted replays)", ruleDeleteGuarded},
 			{"R3.1", "variable-length primary write: data appended before the index record moves", ruleIndirectAppendOnly},
 			{"R5.3", "replay in commit order", ruleReplaySorted},
+			{"R7.5", "one flush takes the whole backlog that was queued when it started", ruleFlushDrainsBacklog},
+			{"R7.2", "a flush requester is answered only after a flush that ran after its request was taken", ruleReplyDiscipline},
+			{"R7.1", "the requester waits for a flush", ruleRequesterWaits},
 		},
 	})
 	register(&Property{
@@ -76,6 +82,7 @@ func init() {
 			{"R7.2", "reply channels are answered only after a flush, and always", ruleReplyDiscipline},
 			{"R1.1", "WAL fsync dominates primary writes", ruleWALSyncBeforePrimary},
 			{"R7.4", "flush success implies fsync", ruleFlushSuccessImpliesSync},
+			{"R7.5", "one flush takes the whole backlog that was queued when it started", ruleFlushDrainsBacklog},
 			{"R1.3", "WriteCSM acknowledges only after RequestFlush", ruleAckAfterFlush},
 		},
 	})
@@ -139,6 +146,7 @@ func init() {
 		Rules: []Rule{
 			{"R3.1", "indirect data is append-only until the index moves; index after data", ruleIndirectAppendOnly},
 			{"R3.3", "replay failures are ReplayErrors", ruleReplayErrorClass},
+			{"R3.5", "the catalog scan skips a half-created bucket directory and keeps its siblings", ruleCatalogLoadTolerant},
 			{"R3.4", "startup panic sites are the frozen table", ruleStartupPanics},
 			{"R34.8", "tolerated replay errors are recognised through error wrapping", ruleReplayErrorUnwrapped},
 			{"R6.4", "no explicit panic below Replay", ruleNoPanicUnderReplay},
@@ -159,6 +167,7 @@ func init() {
 			{"R6.5", "bytes returned by the WAL reader are used only after its error was tested", ruleReadResultAfterErrCheck},
 			{"R35.4", "only a COMPLETE checkpoint record prunes transaction groups (a torn checkpoint must not hide intact ones)", ruleCheckpointPrunesReplay},
 			{"R5.3", "intact TGs are applied in commit order", ruleReplaySorted},
+			{"R34.8", "a tolerated replay failure is recognised through error wrapping (startup does not abort on it)", ruleReplayErrorUnwrapped},
 		},
 	})
 }
